@@ -85,6 +85,8 @@ theorem reveal_hide (a : AVP) (secret : Bytes) (rv : UInt32) (lp ap : Bytes)
     simp; omega
   rw [c1]
   simp only [Bool.false_eq_true, if_false]
+  rw [subM_ok (by omega)]
+  simp only []
   rw [if_neg (by simp)]
   have e6 : 6 + a.value.length - 6 = a.value.length := by omega
   rw [e6, inSub_ok _ (by simp), List.take_left' rfl, payload_roundtrip a hw hh]
